@@ -12,7 +12,6 @@ From Tibc Require Import Base.Bytes Base.BytesFacts Base.FMap Host.Keys Host.Key
   Routing.Rules Packet.Types Packet.Keeper Packet.U64 Packet.KeyEq Packet.KeeperFacts Packet.Invariants.
 From Coq Require Import ZArith ZifyN ZifyNat ZifyBool Lia.
 
-Set Default Proof Using "Type".
 
 Section DelRangeMore.
 Context {V : Type}.
@@ -43,15 +42,18 @@ Notation receipt_at := (receipt_at A).
 Notation commit_at := (commit_at A).
 Notation ack_at := (ack_at A).
 
+(** the three facts at one triple *)
+Definition at3 (c : chain) (s d : bytes) (n : N) : Prop :=
+  (commit_at c s d n <> None -> receipt_at c s d n <> None) /\
+  (ack_at c s d n <> None -> receipt_at c s d n <> None \/ n <= clean_seq c s d) /\
+  (ack_at c s d n <> None -> commit_at c s d n = None).
+
 Definition InvA (c : chain) : Prop :=
-  forall s d n, wfk s d n -> s <> c_name c ->
-    (commit_at c s d n <> None -> receipt_at c s d n <> None) /\
-    (ack_at c s d n <> None -> receipt_at c s d n <> None \/ n <= clean_seq c s d) /\
-    (ack_at c s d n <> None -> commit_at c s d n = None).
+  forall s d n, wfk s d n -> s <> c_name c -> at3 c s d n.
 
 Lemma InvA_empty c : c_kv c = [] -> InvA c.
 Proof.
-  intros E s d n _ _. unfold KeeperFacts.commit_at, KeeperFacts.ack_at. rewrite E. cbn.
+  intros E s d n _ _. unfold at3, KeeperFacts.commit_at, KeeperFacts.ack_at. rewrite E. cbn.
   repeat split; intros X; congruence.
 Qed.
 
@@ -84,6 +86,186 @@ Proof.
   - destruct (set_rules rs); [|discriminate]. inversion E; subst. reflexivity.
   - inversion E; subst. reflexivity.
   - inversion E; subst. reflexivity.
+Qed.
+
+Lemma at3_frame c c' s d n :
+  at3 c s d n ->
+  commit_at c' s d n = commit_at c s d n -> (ack_at c' s d n <> None -> ack_at c s d n <> None) ->
+  (receipt_at c s d n <> None -> receipt_at c' s d n <> None \/ n <= clean_seq c' s d) ->
+  clean_seq c s d <= clean_seq c' s d ->
+  (commit_at c s d n <> None -> receipt_at c' s d n <> None) ->
+  at3 c' s d n.
+Proof.
+  intros (L & M & J) EC EA ER CL LR. unfold at3. rewrite EC. split; [exact LR|]. split.
+  - intros X. destruct (M (EA X)) as [R|R]; [apply ER; exact R|right; lia].
+  - intros X. apply J. apply EA. exact X.
+Qed.
+
+(** keys of different triples differ *)
+Lemma seq_key_neq f s d n s' d' n' :
+  is_fam f -> noslash s -> noslash d -> noslash s' -> noslash d' -> n < two64 -> n' < two64 ->
+  ~ (s = s' /\ d = d' /\ n = n') -> seq_key f s d n <> seq_key f s' d' n'.
+Proof. intros F a b c0 d0 e g NE E. apply NE. eapply key_eq_triple; eassumption. Qed.
+
+Lemma pair_key_neq f s d s' d' :
+  is_fam f -> noslash s -> noslash d -> noslash s' -> noslash d' ->
+  ~ (s = s' /\ d = d') -> path [f; s; d] <> path [f; s'; d'].
+Proof.
+  intros F a b c0 d0 NE E. apply NE. apply pair_key_inj in E; try (apply is_fam_noslash; exact F); try assumption.
+  destruct E as (_ & -> & ->). auto.
+Qed.
+
+Lemma send_InvA c p c' ev : wfp p -> InvA c -> send_packet A H c p = Some (c', ev) -> InvA c'.
+Proof.
+  intros W I E. apply send_packet_inv in E. destruct E as (V & S & Q & _ & ->).
+  apply validate_basic_names in V. destruct V as (Ns & Nd & _ & _).
+  intros s d n (Ws & Wd & Wn) NE. cbn [Keeper.c_name with_kv] in NE.
+  specialize (I s d n (conj Ws (conj Wd Wn)) NE).
+  assert (K1 : commit_key s d n <> commit_key (p_src p) (p_dst p) (p_seq p)).
+  { apply seq_key_neq; auto with keys. intros (X & _). congruence. }
+  apply (at3_frame c); auto.
+  - unfold KeeperFacts.commit_at. cbn [Keeper.c_kv with_kv]. rewrite lookup_set_neq by exact K1.
+    apply lookup_set_neq. fam_neq.
+  - unfold KeeperFacts.ack_at. cbn [Keeper.c_kv with_kv]. rewrite !lookup_set_neq by fam_neq. auto.
+  - intros R. left. unfold KeeperFacts.receipt_at in *. cbn [Keeper.c_kv with_kv]. rewrite !lookup_set_neq by fam_neq. exact R.
+  - unfold Keeper.clean_seq. cbn [Keeper.c_kv with_kv]. rewrite !lookup_set_neq by fam_neq. lia.
+  - intros CM. destruct I as (L & _). unfold KeeperFacts.receipt_at in *. cbn [Keeper.c_kv with_kv].
+    rewrite !lookup_set_neq by fam_neq. apply L. exact CM.
+Qed.
+
+(** no light client under the chain's own name (a chain does not track itself) *)
+Definition NoSelf (c : chain) : Prop := lookup (c_name c) (c_clients A c) = None.
+
+Lemma recv_InvA c p pf h c' ev :
+  wfp p -> NoSelf c -> c_name c <> [] -> InvA c ->
+  msg_recv A H has_route on_recv c p pf h = Some (c', ev) -> InvA c'.
+Proof.
+  intros W NS NN I E.
+  assert (NAME : c_name c' = c_name c) by (apply msg_recv_inv in E; tauto).
+  pose proof (msg_recv_inv _ _ _ _ _ _ _ _ _ _ E) as (V & CL & R0 & R1 & FR & _).
+  apply validate_basic_names in V. destruct V as (Ns & Nd & _ & _).
+  intros s d n (Ws & Wd & Wn) NE. rewrite NAME in NE.
+  specialize (I s d n (conj Ws (conj Wd Wn)) NE).
+  destruct (bytes_eq_dec s (p_src p)) as [Es|Es]; [destruct (bytes_eq_dec d (p_dst p)) as [Ed|Ed];
+    [destruct (N.eq_dec n (p_seq p)) as [En|En]|]|].
+  2,3,4: (* another triple: nothing it concerns changed *)
+    assert (T : ~ (s = p_src p /\ d = p_dst p /\ n = p_seq p)) by (intros (X & Y & Z); congruence);
+    assert (KR : receipt_key s d n <> receipt_key (p_src p) (p_dst p) (p_seq p)) by (apply seq_key_neq; auto with keys);
+    assert (KC : commit_key s d n <> commit_key (p_src p) (p_dst p) (p_seq p)) by (apply seq_key_neq; auto with keys);
+    assert (KA : ack_key s d n <> ack_key (p_src p) (p_dst p) (p_seq p)) by (apply seq_key_neq; auto with keys);
+    apply (at3_frame c); auto;
+    [ unfold KeeperFacts.commit_at; apply FR; [fam_neq|exact KC|fam_neq|fam_neq]
+    | unfold KeeperFacts.ack_at; rewrite FR; [auto|fam_neq|fam_neq|exact KA|fam_neq]
+    | intros R; left; unfold KeeperFacts.receipt_at in *; rewrite FR; [exact R|exact KR|fam_neq|fam_neq|fam_neq]
+    | unfold Keeper.clean_seq; rewrite FR by fam_neq; lia
+    | intros CM; destruct I as (L & _); unfold KeeperFacts.receipt_at in *; rewrite FR; [apply L; exact CM|exact KR|fam_neq|fam_neq|fam_neq] ].
+  (* the packet's own triple *)
+  subst s d n. destruct I as (L & M & J).
+  assert (C0 : commit_at c (p_src p) (p_dst p) (p_seq p) = None).
+  { destruct (commit_at c (p_src p) (p_dst p) (p_seq p)) eqn:X; [|reflexivity].
+    exfalso. apply L; [discriminate|exact R0]. }
+  assert (A0 : ack_at c (p_src p) (p_dst p) (p_seq p) = None).
+  { destruct (ack_at c (p_src p) (p_dst p) (p_seq p)) eqn:X; [|reflexivity].
+    exfalso. destruct M as [M|M]; [discriminate|apply M; exact R0|lia]. }
+  unfold at3. split; [intros _; rewrite R1; discriminate|]. split; [intros _; left; rewrite R1; discriminate|].
+  (* ack written => not forwarded *)
+  intros AK. unfold msg_recv in E.
+  destruct (N.eqb h 0); [discriminate|].
+  pose proof (recv_packet_inv2 A H c p pf h) as [RS RV].
+  destruct (recv_packet A H c p pf h) as [|c1 ev1|c1 ev1] eqn:RP; [discriminate| |].
+  - destruct RS as (-> & _ & _ & _).
+    destruct (write_ack A H _ p unauth_ack) as [[c2 ev2]|] eqn:WA; [|discriminate].
+    inversion E; subst c' ev. apply write_ack_inv in WA. destruct WA as (_ & _ & _ & ->).
+    unfold KeeperFacts.commit_at in *. cbn [Keeper.c_kv with_kv].
+    rewrite lookup_set_max_ack_other by fam_neq. rewrite !lookup_set_neq by fam_neq. exact C0.
+  - destruct RS as [(-> & _ & NR)|(-> & _ & RL & _ & _)].
+    + (* not forwarded: the commitment key is untouched *)
+      assert (CK : forall c2, c_kv c2 = c_kv (with_kv A c (set (receipt_key (p_src p) (p_dst p) (p_seq p)) receipt_val (c_kv c))) \/
+                 (exists a, c_kv c2 = set_max_ack (p_src p) (p_dst p) (p_seq p)
+                     (set (ack_key (p_src p) (p_dst p) (p_seq p)) (H a)
+                        (set (receipt_key (p_src p) (p_dst p) (p_seq p)) receipt_val (c_kv c)))) ->
+                 commit_at c2 (p_src p) (p_dst p) (p_seq p) = None).
+      { intros c2 [X|[a X]]; unfold KeeperFacts.commit_at in *; rewrite X; cbn [Keeper.c_kv with_kv].
+        - rewrite lookup_set_neq by fam_neq. exact C0.
+        - rewrite lookup_set_max_ack_other by fam_neq. rewrite !lookup_set_neq by fam_neq. exact C0. }
+      cbn [Keeper.c_name with_kv] in E.
+      destruct (beq (p_dst p) (c_name c)).
+      * destruct (has_route (p_port p)); cbn [negb] in E; [|discriminate].
+        cbn [Keeper.c_app with_kv] in E.
+        destruct (on_recv (c_app A c) p) as [[a' oack]|]; [|discriminate].
+        destruct oack as [ack|].
+        -- destruct (write_ack A H _ p ack) as [[c3 ev3]|] eqn:WA; [|discriminate].
+           inversion E; subst c' ev. apply write_ack_inv in WA. destruct WA as (_ & _ & _ & ->).
+           apply CK. right. exists ack. reflexivity.
+        -- inversion E; subst c' ev. apply CK. left. reflexivity.
+      * inversion E; subst c' ev. apply CK. left. reflexivity.
+    + (* forwarded: then this chain is not the destination (no client of itself), so no ack is written *)
+      exfalso.
+      destruct (RV ltac:(discriminate)) as (cl & LK & _).
+      cbn [Keeper.c_name with_kv] in E.
+      destruct (beq (p_dst p) (c_name c)) eqn:BD.
+      * (* dst = relay = own name: the prover is the chain itself *)
+        cbn [andb] in LK.
+        assert (RN : is_nil (p_relay p) = false) by (rewrite RL; destruct (c_name c); [contradiction|reflexivity]).
+        rewrite RN in LK. cbn [negb] in LK. rewrite RL in LK. unfold NoSelf in NS. congruence.
+      * inversion E; subst c' ev. apply AK.
+        unfold KeeperFacts.ack_at in *. cbn [Keeper.c_kv with_kv]. rewrite !lookup_set_neq by fam_neq. exact A0.
+Qed.
+
+Lemma ack_InvA c p a pf h c' ev :
+  wfp p -> InvA c -> msg_ack A H has_route on_ack c p a pf h = Some (c', ev) -> InvA c'.
+Proof.
+  intros W I E. apply msg_ack_inv in E. destruct E as (_ & c1 & ev1 & AP & KV & NAME & _).
+  pose proof (ack_packet_vals _ _ _ _ _ _ _ _ _ AP) as VALS.
+  apply ack_packet_inv in AP. destruct AP as (V & CL & ST & _ & C1 & FR & _).
+  apply validate_basic_names in V. destruct V as (Ns & Nd & _ & _).
+  intros s d n (Ws & Wd & Wn) NE. rewrite NAME in NE.
+  specialize (I s d n (conj Ws (conj Wd Wn)) NE).
+  assert (RCP : receipt_at c' s d n = receipt_at c s d n).
+  { unfold KeeperFacts.receipt_at. rewrite KV. apply FR; fam_neq. }
+  assert (CLN : clean_seq c' s d = clean_seq c s d).
+  { unfold Keeper.clean_seq. rewrite KV. rewrite FR by fam_neq. reflexivity. }
+  destruct (bytes_eq_dec s (p_src p)) as [Es|Es]; [destruct (bytes_eq_dec d (p_dst p)) as [Ed|Ed];
+    [destruct (N.eq_dec n (p_seq p)) as [En|En]|]|].
+  2,3,4:
+    assert (T : ~ (s = p_src p /\ d = p_dst p /\ n = p_seq p)) by (intros (X & Y & Z); congruence);
+    assert (KC : commit_key s d n <> commit_key (p_src p) (p_dst p) (p_seq p)) by (apply seq_key_neq; auto with keys);
+    assert (KA : ack_key s d n <> ack_key (p_src p) (p_dst p) (p_seq p)) by (apply seq_key_neq; auto with keys);
+    apply (at3_frame c); auto;
+    [ unfold KeeperFacts.commit_at; rewrite KV; apply FR; [exact KC|fam_neq|fam_neq]
+    | unfold KeeperFacts.ack_at; rewrite KV; rewrite FR; [auto|fam_neq|exact KA|fam_neq]
+    | rewrite RCP; auto
+    | rewrite CLN; lia
+    | rewrite RCP; destruct I as (L & _); exact L ].
+  subst s d n. destruct I as (L & M & J).
+  assert (C0 : commit_at c (p_src p) (p_dst p) (p_seq p) <> None).
+  { destruct (commit_at c (p_src p) (p_dst p) (p_seq p)); [discriminate|].
+    apply beq_spec in ST. symmetry in ST. apply H_nonempty in ST. contradiction. }
+  assert (CC : commit_at c' (p_src p) (p_dst p) (p_seq p) = None).
+  { unfold KeeperFacts.commit_at in *. rewrite KV. exact C1. }
+  unfold at3. rewrite CC, RCP, CLN. split; [intros X; congruence|]. split; [|reflexivity].
+  intros _. left. apply L. exact C0.
+Qed.
+
+Lemma clean_InvA c cp c' ev :
+  wfcp cp -> noslash (c_name c) -> InvA c -> clean_packet A c cp = Some (c', ev) -> InvA c'.
+Proof.
+  intros W NSL I E. apply clean_packet_inv in E. destruct E as (VB & _ & _ & ->).
+  apply clean_validate_basic_names in VB. destruct VB as [_ Vd].
+  assert (KVE : forall k, k <> clean_key (c_name c) (cp_dst cp) ->
+            lookup k (clean_acks_receipts (c_name c) (cp_dst cp) (cp_seq cp)
+                        (set (clean_key (c_name c) (cp_dst cp)) (be64 (cp_seq cp)) (c_kv c))) = lookup k (c_kv c)).
+  { intros k Hk. unfold clean_acks_receipts. rewrite lookup_set_eq. rewrite u64_of_be64 by exact W.
+    rewrite N.sub_diag. cbn [N.to_nat del_range]. apply lookup_set_neq. exact Hk. }
+  intros s d n (Ws & Wd & Wn) NE. cbn [Keeper.c_name with_kv] in NE.
+  specialize (I s d n (conj Ws (conj Wd Wn)) NE).
+  apply (at3_frame c); auto.
+  - unfold KeeperFacts.commit_at. cbn [Keeper.c_kv with_kv]. apply KVE. fam_neq.
+  - unfold KeeperFacts.ack_at. cbn [Keeper.c_kv with_kv]. rewrite KVE by fam_neq. auto.
+  - intros R. left. unfold KeeperFacts.receipt_at in *. cbn [Keeper.c_kv with_kv]. rewrite KVE by fam_neq. exact R.
+  - unfold Keeper.clean_seq. cbn [Keeper.c_kv with_kv]. rewrite KVE; [lia|].
+    unfold clean_key. intros X. apply pair_key_inj in X; try (apply is_fam_noslash; auto with keys); try assumption.
+    destruct X as (_ & X & _). congruence.
 Qed.
 
 End AckOnce.
